@@ -9,7 +9,7 @@
 (*   log:   [{lang, text, disable}] (what the proofreader was given),         *)
 (*   report: [{o, n, line, col, fromy, fromx, toy, tox, word, ctxword}]       *)
 (*            (fields a mode does not have are -1 / <<>>)}                    *)
-EXTENDS Doc, Json, IOUtils
+EXTENDS Doc, Integers, Json, IOUtils
 Recs == ndJsonDeserialize(IOEnv.TRACE_FILE)
 VARIABLE cur
 Init == cur = 1
@@ -45,19 +45,24 @@ EndOff(r, e) ==       \* offset of the last character, or -1 if the format does 
 C14(r) ==
   LET exp == Ref(r.doc)
       bpos == {exp.items[m].lo : m \in {m \in 1..Len(exp.items) : exp.items[m].t = "c" /\ exp.items[m].ch = r.flag}}     \* 1-based positions of flagged characters
-      E == r.report
+      All == r.report
+      \* (HTML moves a message that overlaps an earlier one - e.g. a word around a footnote and the word inside it - to a separate
+      \*  list without column: such entries count as messages, their place is not judged)
+      E == SelectSeq(All, LAMBDA e : ~(r.mode = "html" /\ e.col = -1))
       offs == [k \in 1..Len(E) |-> Off(r, E[k])]
       ends == [k \in 1..Len(E) |-> EndOff(r, E[k])] IN
   IF exp.src # r.src THEN "bind:source-text-differs-from-document"
   ELSE IF Len(r.log) # Len(r.parts) \/ \E k \in 1..Len(r.log) : r.log[k].text # r.parts[k].text THEN "submitted-texts-differ-from-the-filter's-parts"
   ELSE IF \E k \in 1..Len(r.log) : r.log[k].lang # r.parts[k].lang THEN "part-submitted-under-another-language-code@" \o ToString(Min({k \in 1..Len(r.log) : r.log[k].lang # r.parts[k].lang}))
   ELSE IF r.ml /\ \E k \in 1..Len(r.log) : (Words(r.log[k].text) <= r.rulethr) # r.log[k].mlrule THEN "rule-options-for-short-parts-wrong@" \o ToString(Min({k \in 1..Len(r.log) : (Words(r.log[k].text) <= r.rulethr) # r.log[k].mlrule}))
-  ELSE IF Len(E) # TotalRuns(r.log, 1, r.flag) THEN "number-of-messages-" \o ToString(Len(E)) \o "-flagged-words-" \o ToString(TotalRuns(r.log, 1, r.flag))
+  ELSE IF Len(All) # TotalRuns(r.log, 1, r.flag) THEN "number-of-messages-" \o ToString(Len(All)) \o "-flagged-words-" \o ToString(TotalRuns(r.log, 1, r.flag))
   ELSE IF \E k \in 1..Len(E) : offs[k] + 1 \notin bpos THEN "message-not-at-a-flagged-word@" \o ToString(Min({k \in 1..Len(E) : offs[k] + 1 \notin bpos}))
   ELSE IF \E k \in 1..Len(E) : ends[k] + 1 \notin bpos \/ ends[k] < offs[k] THEN "message-length-does-not-end-at-the-flagged-word@" \o ToString(Min({k \in 1..Len(E) : ends[k] + 1 \notin bpos \/ ends[k] < offs[k]}))
   ELSE IF \E k \in 1..(Len(E) - 1) : offs[k] > offs[k+1] THEN "messages-not-ordered-by-position"
-  ELSE IF \E p \in bpos : Cardinality({k \in 1..Len(E) : offs[k] + 1 <= p /\ p <= ends[k] + 1}) # 1 /\ r.mode # "plain" THEN "flagged-character-not-covered-by-exactly-one-message"
-  ELSE IF \E k \in 1..Len(E) : E[k].ctxword = <<>> \/ \E x \in 1..Len(E[k].ctxword) : E[k].ctxword[x] # r.flag THEN "excerpt-does-not-mark-the-flagged-word"
+  \* (a flagged word of the plain text may enclose a detached flow in the LaTeX file, whose own flagged word then lies inside two spans)
+  ELSE IF Len(E) = Len(All) /\ r.mode # "plain" /\ \E p \in bpos : Cardinality({k \in 1..Len(E) : offs[k] + 1 <= p /\ p <= ends[k] + 1}) = 0 THEN "flagged-character-not-covered-by-a-message"
+  ELSE IF Len(E) = Len(All) /\ r.mode # "plain" /\ Cardinality({offs[k] : k \in 1..Len(E)}) # Len(E) THEN "two-messages-at-the-same-place"
+  ELSE IF \E k \in 1..Len(All) : All[k].ctxword = <<>> \/ \E x \in 1..Len(All[k].ctxword) : All[k].ctxword[x] # r.flag THEN "excerpt-does-not-mark-the-flagged-word"
   ELSE IF r.mode = "html" /\ \E k \in 1..Len(E) : E[k].word # SubSeq(r.src, offs[k] + 1, ends[k] + 1) THEN "highlighted-text-is-not-the-source-span"
   ELSE IF r.mode = "json" /\ \E k \in 1..Len(E) :
             <<E[k].fromy, E[k].fromx>> # <<LineOf(r.src, offs[k]) - 1, ColOf(r.src, offs[k]) - 1>>
